@@ -634,6 +634,18 @@ pub fn walker_chain_5_mixed() {
 
 #[kani::proof]
 #[kani::unwind(12)]
+pub fn walker_chain_9_mand_last() {
+    walker_chain::<9, 40>(0b000100010, 8);
+}
+
+#[kani::proof]
+#[kani::unwind(12)]
+pub fn walker_chain_10_optional() {
+    walker_chain::<10, 48>(0b1000000001, 10);
+}
+
+#[kani::proof]
+#[kani::unwind(12)]
 pub fn walker_chain_9_unknown_last() {
     walker_chain_unknown::<9, 24>(8);
 }
